@@ -205,8 +205,104 @@ def _build_bare():
         FAMILY[cls.__name__] = desc
 
 
+def _build_derived():
+    """Components derived from *concrete* components of the family, changing types / keys / signature: whatever is generated
+    for the parent (adapters, node classes) must not be handed to the child, in either order of construction."""
+    g = globals()
+    Bare_Source, Bare_PSource, Bare_Sink, Bare_Op, Bare_Probe = (g[n] for n in ("Bare_Source", "Bare_PSource", "Bare_Sink", "Bare_Op", "Bare_Probe"))
+
+    class Derived_Source(Bare_Source):
+        """A source derived from a concrete source: other output type, one more parameter."""
+
+        @classmethod
+        def _get_data(cls, v="d", w="e"):
+            return TColl.from_list([TData(["dsrc", v, w])])
+
+        @classmethod
+        def output_data_type(cls):
+            return TColl
+
+    class Derived_PSource(Bare_PSource):
+        """A payload source derived from a concrete one: injects one more key."""
+
+        @classmethod
+        def _get_payload(cls, v="d"):
+            return Payload(TData(["dpsrc", v]), ContextType({"pk16": v, "pk17": v}))
+
+        @classmethod
+        def _injected_context_keys(cls):
+            return ["pk16", "pk17"]
+
+    class Derived_Sink(Bare_Sink):
+        """A sink derived from a concrete sink: accepts collections."""
+
+        @classmethod
+        def _send_data(cls, data, path="/dev/null", mode="w"):
+            return None
+
+        @classmethod
+        def input_data_type(cls):
+            return TColl
+
+    class Derived_Op(Bare_Op):
+        """An operation derived from a concrete one: other output type, one more parameter."""
+
+        @classmethod
+        def output_data_type(cls):
+            return TColl
+
+        def _process_logic(self, data, a, b="x"):
+            return TColl.from_list([TData(["dop", data.data, a, b])])
+
+    class Derived_Probe(Bare_Probe):
+        """A probe derived from a concrete one: reads collections."""
+
+        @classmethod
+        def input_data_type(cls):
+            return TColl
+
+        def _process_logic(self, data, q="z"):
+            return ["dprobe", q]
+
+    # the reverse order of construction: the child is met before its parent
+    class Late_Source(DataSource):
+        """A concrete source met after a class derived from it."""
+
+        @classmethod
+        def _get_data(cls, v="d"):
+            return TData(["late", v])
+
+        @classmethod
+        def output_data_type(cls):
+            return TData
+
+    class Early_Source(Late_Source):
+        """Derived from Late_Source and met first."""
+
+        @classmethod
+        def _get_data(cls, v="d", u="u"):
+            return TColl.from_list([TData(["early", v, u])])
+
+        @classmethod
+        def output_data_type(cls):
+            return TColl
+
+    for cls, desc in ((Derived_Source, dict(kind="dataSource", inT="NoDataType", outT="TColl", created=[], params=["v", "w"])),
+                      (Derived_PSource, dict(kind="payloadSource", inT="NoDataType", outT="TData", created=["pk16", "pk17"], params=["v"])),
+                      (Derived_Sink, dict(kind="dataSink", inT="TColl", outT="TColl", created=[], params=["path", "mode"])),
+                      (Derived_Op, dict(kind="operation", inT="TData", outT="TColl", created=[], params=["a", "b"])),
+                      (Derived_Probe, dict(kind="probe", inT="TColl", outT=None, created=[], params=["q"])),
+                      (Early_Source, dict(kind="dataSource", inT="NoDataType", outT="TColl", created=[], params=["v", "u"])),
+                      (Late_Source, dict(kind="dataSource", inT="NoDataType", outT="TData", created=[], params=["v"]))):
+        cls.__module__ = __name__
+        cls.__qualname__ = cls.__name__
+        g[cls.__name__] = cls
+        FAMILY[cls.__name__] = desc
+
+
 _build()
 _build_bare()
+_build_derived()
 
 
 def register() -> None:
